@@ -132,6 +132,7 @@ def render(beh):
         return "b%d" % nb[0]
 
     lines.append("function main() -> void {")
+    lines.append("int[] lut = {0, 1};")
     scopes = [[]]         # plain qubit / qubit[2] locals in scope: (variable number, kind)
     for n, st in enumerate(beh["prog"], start=1):
         s = st["s"]
@@ -223,7 +224,10 @@ def render(beh):
                 ref = "v%d[c%d++]" % (st["v"], n)
             pre = "int c%d = %d; " % (n, st["e"] - 1) if cur else ""
             post = " if (c%d != %d) { echo(\"cursor\"); }" % (n, st["e"]) if cur else ""
-            if expr and n % 4 == 2:
+            if expr and n % 4 == 0:
+                # ... or sits in the index of the echoed element
+                lines.append("%secho(lut[%s]);%s" % (pre, call or ("measure " + ref), post))
+            elif expr and n % 4 == 2:
                 # the measurement is the echo argument itself: performed whether or not echo output is switched on
                 lines.append("%secho(%s);%s" % (pre, call or ("measure " + ref), post))
             elif expr:
